@@ -12,6 +12,7 @@ package main
 //          ReleaseIfStale followed by TryLock succeeds.
 
 import (
+	"syscall"
 	"context"
 	"fmt"
 	"os"
@@ -65,12 +66,19 @@ func newFsEnvs() ([]fsEnv, func()) {
 // slowLockFs delays the operations that write a heart-beat file (`*.lock`): opening it for writing and stamping it
 type slowLockFs struct {
 	afero.Fs
-	delay time.Duration
+	delay    time.Duration
+	failAt   int64 // the failAt-th write-open of a heart-beat file fails once (0: never)
+	writes   int64
+	failedAt atomic.Int64 // unix nanoseconds of the injected failure
 }
 
 func (s *slowLockFs) OpenFile(name string, flag int, perm os.FileMode) (afero.File, error) {
 	if strings.HasSuffix(name, ".lock") && flag&(os.O_WRONLY|os.O_RDWR|os.O_CREATE) != 0 {
 		time.Sleep(s.delay)
+		if n := atomic.AddInt64(&s.writes, 1); s.failAt > 0 && n == s.failAt {
+			s.failedAt.Store(time.Now().UnixNano())
+			return nil, &os.PathError{Op: "open", Path: name, Err: syscall.EMFILE}
+		}
 	}
 	return s.Fs.OpenFile(name, flag, perm)
 }
@@ -278,7 +286,7 @@ func lockTimeMain(args []string) {
 		periods, observers = 300, 12
 	}
 	for _, env := range envs {
-		id := fmt.Sprintf("live%d", atomic.AddInt64(&lockSeq, 1))
+		id := fmt.Sprintf("live[%d]{a,b}", atomic.AddInt64(&lockSeq, 1)) // identifiers may contain anything: here pattern characters
 		holder := filesystem.NewRemoteLockFile(env.fs, id, env.base)
 		if err := holder.TryLock(ctx); err != nil {
 			rep.Fail(hx.Failure{Kind: "harness-error", Key: "live-acquire", Detail: err.Error()})
@@ -355,6 +363,47 @@ func lockTimeMain(args []string) {
 		_ = holder.Unlock(ctx)
 	}
 
+	// ---- a live holder whose heart-beat write fails ONCE (descriptor pressure, a hiccup of a network share): the next
+	//      beat makes up for it; observed only once the beat after the failure has had time to land ----------------------
+	{
+		tmp3, _ := os.MkdirTemp("", "verif-lock-hiccup")
+		ffs := &slowLockFs{Fs: afero.NewOsFs(), failAt: 4}
+		vfs := filesystem.NewVirtualFileSystem(ffs, filesystem.StandardFS, filesystem.IdentityPathConverterFunc).(*filesystem.VFS)
+		id := fmt.Sprintf("hiccup%d", atomic.AddInt64(&lockSeq, 1))
+		holder := filesystem.NewRemoteLockFile(vfs, id, tmp3)
+		caseTxt := "live hold on os, the 4th heart-beat write fails once (EMFILE)"
+		if err := holder.TryLock(ctx); err != nil {
+			rep.Fail(hx.Failure{Kind: "harness-error", Key: "hiccup-acquire", Detail: err.Error()})
+		} else {
+			for t0 := time.Now(); ffs.failedAt.Load() == 0 && time.Since(t0) < 3*time.Second; {
+				time.Sleep(5 * time.Millisecond)
+			}
+			time.Sleep(250 * time.Millisecond) // five periods after the failure: the following beats have landed
+			other := filesystem.NewRemoteLockFile(vfs, id, tmp3)
+			stale, taken := 0, 0
+			for t1 := time.Now(); time.Since(t1) < 400*time.Millisecond; {
+				if other.IsStale() {
+					stale++
+				}
+				if err := other.TryLock(ctx); err == nil {
+					taken++
+				} else if commonerrors.Any(err, commonerrors.ErrStaleLock) {
+					stale++
+				}
+				time.Sleep(3 * time.Millisecond)
+			}
+			rep.Eval(caseTxt, true)
+			rep.Hist("live:one-failed-heartbeat-write")
+			if ffs.failedAt.Load() == 0 {
+				rep.Hist("live:one-failed-heartbeat-write:failure-not-injected")
+			} else if stale > 0 || taken > 0 {
+				rep.Fail(hx.Failure{Kind: "impl-violates-property", Key: "live-lock-reported-stale:after-one-failed-heartbeat-write", Case: caseTxt,
+					Expected: "the holder is alive and its context not cancelled: the heart-beat goes on, never stale / taken over", Observed: fmt.Sprintf("stale=%d takenOver=%d in the 400 ms starting 250 ms after the failed write", stale, taken)})
+			}
+			_ = holder.Unlock(ctx)
+		}
+		_ = os.RemoveAll(tmp3)
+	}
 	// ---- dead holders ----------------------------------------------------------------------------
 	for _, env := range envs {
 		for _, point := range []string{"steady-state", "right-after-acquire", "before-first-heartbeat"} {
